@@ -1,13 +1,13 @@
 CONSTANTS ControlsExisting = TRUE
   RandomFresh = TRUE
   OpenReturns = TRUE
-  Ctls = {"cpu", "memory"}
+  CtlSets = {{"cpu", "memory"}, {"u"}}
   Names = {"x", "y"}
   RNames = {"r"}
   PidSet = {"p1", "p2"}
-  MaxOps = 5
+  MaxOps = 6
   MaxDepth = 2
-  MaxHandles = 4
+  MaxHandles = 5
   WithSet = FALSE
   Emit = FALSE
 SPECIFICATION Spec
